@@ -5,6 +5,7 @@ import RsModel.Lemmas.ProvChunks
 import RsModel.Lemmas.ProvBytes
 import RsModel.Lemmas.SourcesOnce
 import RsModel.Lemmas.ProvLines
+import RsModel.Lemmas.ColdStrip
 /-!
 # C04 — mappings point to where the text really came from
 (leaf level: an OriginalSource maps every token to its own position; the composites are tied by correspondence)
@@ -260,5 +261,16 @@ theorem c04_lines_map (cons : Text → Option Text) (inner : Src) (ho : inner.Or
 /-- a surviving byte that begins a potential token of its file — a statement start — is the first byte of its segment: exact
 line and column (arithmetic corollary of the token clause of `c04_replace_tree_map_bytes`) -/
 theorem c04_statement_start_exact (q d k0 : Nat) (hk : k0 ≤ q) (hstart : q + d = k0) : d = 0 ∧ q = k0 := by omega
+
+
+/-! ## CachedSource nodes -/
+
+/-- **C04 with CachedSource nodes on cold caches**: the map (and every stream) of a tree with CachedSource wrappers, all cold, is
+the map of the same tree without them (`Src.strip`), whose text is the same — so the provenance theorems above (`c04_map`,
+`c04_replace_tree_map_bytes`, `c04_lines_map`, `c04_sources_once`, stated for cache-free trees) hold for the first `map()` of
+such a tree as they stand. -/
+theorem c04_cold_caches (s : Src) (o : Opts) (σ : Store) (hn : s.ids.Nodup) (hc : Cold σ s.ids) :
+    (getMap s o σ).1 = (getMap s.strip o []).1 ∧ s.src = s.strip.src ∧ s.strip.NoCached :=
+  ⟨getMap_strip s o σ hn hc, (Src.strip_src s).symm, Src.strip_nc s⟩
 
 end Rs
